@@ -52,6 +52,7 @@ def run(ctx):
                        [float(col[-1]) for col in s["cols"]] != [float(col[-1]) for col in a["out"]["cols"]]:
                         ctx.violation("%s: result depends on return_full_data although the draws do not" % sim, rep)
     large_fanout(ctx)
+    after_aborted_call(ctx)
     # (d) cross-process, hash seeds
     jobs = []
     for sim in CONT:
@@ -164,3 +165,68 @@ def large_fanout(ctx):
             ctx.violation("%s: two calls with identically seeded random / numpy.random differ on a hub graph (%d spokes)" % (sim, m), rep)
         elif sa != sb:
             ctx.violation("%s: identically seeded calls leave random / numpy.random in different states (hub graph)" % sim, rep)
+
+
+def after_aborted_call(ctx):
+    """(f) a simulation that is ABORTED half-way (a user rule raises, as a Ctrl-C or a bug in a callback would) must leave
+    nothing behind: the same seeded call made before the aborted run, right after it and once more must return identical
+    output.  Event-driven and Gillespie simulators; real seeded generators."""
+    import random
+    import numpy as np, networkx as nx, EoN
+
+    class Abort(Exception):
+        pass
+    targets = ["fast_SIR", "fast_SIS", "fast_nonMarkov_SIR", "fast_nonMarkov_SIS", "Gillespie_SIR", "Gillespie_SIS"]
+    for k in range(ctx.scale(18, 90)):
+        r = ctx.rng
+        G = nx.gnp_random_graph(r.randint(8, 20), 0.4, seed=r.randrange(10 ** 6))
+        if G.number_of_edges() == 0:
+            continue
+        sim = targets[k % len(targets)]
+        seed = r.randrange(10 ** 6)
+        seeds_ = [u for u in G if G.degree(u) > 0][:2]
+        rep = dict(entry=sim, stream="after-aborted-call", n=G.order(), seed=seed)
+
+        def good():
+            random.seed(seed); np.random.seed(seed)
+            if sim == "fast_nonMarkov_SIR":
+                out = EoN.fast_nonMarkov_SIR(G, trans_time_fxn=lambda s, t: random.expovariate(1.0), rec_time_fxn=lambda u: random.expovariate(1.0),
+                                             initial_infecteds=seeds_, tmax=4)
+            elif sim == "fast_nonMarkov_SIS":
+                out = EoN.fast_nonMarkov_SIS(G, trans_time_fxn=lambda s, t, d: [x for x in [random.expovariate(1.0)] if x < d],
+                                             rec_time_fxn=lambda u: random.expovariate(1.0), initial_infecteds=seeds_, tmax=4)
+            else:
+                out = getattr(EoN, sim)(G, 1.0, 1.0, initial_infecteds=seeds_, tmax=4)
+            return [[float(x) for x in col] for col in out]
+
+        def aborted():
+            calls = [0]
+
+            def bomb(*a):
+                calls[0] += 1
+                if calls[0] > 3:
+                    raise Abort()
+                return 0.5
+            try:
+                which = r.choice(["SIR", "SIS"])
+                if which == "SIR":
+                    EoN.fast_nonMarkov_SIR(G, trans_time_fxn=bomb, rec_time_fxn=lambda u: 5.0, initial_infecteds=seeds_, tmax=50)
+                else:
+                    EoN.fast_nonMarkov_SIS(G, trans_time_fxn=lambda s, t, d: [bomb()], rec_time_fxn=lambda u: 5.0, initial_infecteds=seeds_, tmax=50)
+            except Abort:
+                return True
+            return False
+        try:
+            a = good()
+            was_aborted = aborted()
+            b = good()
+            c = good()
+        except Exception as e:
+            ctx.case(rep, nontrivial=False)
+            ctx.violation("%s raised %s around an aborted run" % (sim, type(e).__name__), dict(rep, error=repr(e)[:200]))
+            continue
+        ctx.case(rep, nontrivial=was_aborted)
+        ctx.count("after-aborted-call:" + sim)
+        if not (a == b == c):
+            ctx.violation("%s: the same seeded call returns different output after another simulation was aborted by an exception "
+                          "(before / right after / once more: %s)" % (sim, [a == b, b == c]), rep)
